@@ -56,7 +56,11 @@ class Call:
     def __init__(self, h, unit, args, opts=None, ir="S", std=None):
         Call._n += 1
         self.h, self.unit, self.args, self.opts, self.ir, self.std = h, h.units[unit], list(args), opts, ir, std
-        self.out = z3.BitVec("OUT!%d!%s" % (Call._n, unit), B.WIDTH[self.unit.ret])
+        self.int_mode = bool(opts is not None and opts.int_mode)
+        if self.int_mode:
+            self.out = z3.Int("OUT!%d!%s" % (Call._n, unit))
+        else:
+            self.out = z3.BitVec("OUT!%d!%s" % (Call._n, unit), B.WIDTH[self.unit.ret])
         self.res = None
         self.term = None
 
@@ -65,19 +69,26 @@ class Call:
             return self.res
         mod = self.h.lower(self.ir, self.std)
         vals = []
+        o = self.opts or E.Opts()
         for (n, k), a in zip(self.unit.params, self.args):
+            if self.int_mode:
+                if k in ("f32", "f64"):
+                    raise Unsupported("fp parameter in INT mode")
+                vals.append(E.IV(a, B.WIDTH[k]))
+                continue
             if a.size() != B.WIDTH[k]:
                 raise ValueError("argument width for %s.%s" % (self.unit.name, n))
-            o = self.opts or E.Opts()
             if k in ("f32", "f64"):
                 if o.fp_mode == "real":
                     raise Unsupported("fp parameter in real mode")
                 vals.append(z3.fpBVToFP(a, z3.Float32() if k == "f32" else z3.Float64()))
             else:
                 vals.append(a)
-        self.res = E.encode(mod, self.unit.sym, vals, self.opts or E.Opts())
+        self.res = E.encode(mod, self.unit.sym, vals, o)
         r = self.res.ret
-        if self.unit.ret in ("f32", "f64"):
+        if self.int_mode:
+            r = r.t
+        elif self.unit.ret in ("f32", "f64"):
             r = z3.fpToIEEEBV(r)
         self.term = r
         return self.res
@@ -86,12 +97,13 @@ class Call:
 class Ob:
     def __init__(self, name, kind, inputs, calls, assume, goal, ub=False, portfolio=None, timeout=None,
                  natives=None, note="", extra_asserts=(), expect_unsat=True, abstract=False, fallback=None,
-                 comm_lemmas=True):
+                 comm_lemmas=True, also_ub=False):
         self.name, self.kind, self.inputs, self.calls = name, kind, list(inputs), list(calls)
         self.assume, self.goal, self.ub = assume, goal, ub
         self.portfolio, self.timeout, self.natives, self.note = portfolio, timeout, natives, note
         self.extra_asserts = list(extra_asserts)
         self.abstract, self.fallback, self.comm_lemmas = abstract, fallback, comm_lemmas
+        self.also_ub = also_ub      # value obligation that additionally requires "no UB site reachable" on its domain
         self.outcome = None
         self.query = None
         self.verdict = None      # 'discharged' | 'violation' | 'known' | 'inconclusive' | 'witnessed' | 'no-cex'
@@ -205,7 +217,7 @@ class Run:
             if ob.kind == "witness":
                 asserts.append(g)
             else:
-                asserts.append(z3.Or([z3.Not(g)] + unwind))
+                asserts.append(z3.Or([z3.Not(g)] + unwind + ([cnd for _, _, cnd in ubs] if ob.also_ub else [])))
         asserts.extend(ob.extra_asserts)
         if extra is not None:
             asserts.append(extra)
@@ -221,7 +233,7 @@ class Run:
         if self.pin:
             for c in ob.inputs:
                 if c.decl().name() in self.pin:
-                    asserts.append(c == z3.BitVecVal(self.pin[c.decl().name()], c.size()))
+                    asserts.append(c == mk_val(c, self.pin[c.decl().name()]))
         to = ob.timeout or (60 if self.quick() else 600)
         pf = ob.portfolio or ("z3", "cvc5")
         q = S.Query(ob.name + tag, asserts, inputs=ob.inputs, portfolio=pf, timeout=to)
@@ -233,8 +245,8 @@ class Run:
 
     def replay_ob(self, ob, model):
         """returns (status, info)  status in reproduced | not-reproduced | unwinding | mismatch"""
-        ms = [(c, z3.BitVecVal(model.get(c.decl().name(), 0), c.size())) for c in ob.inputs]
-        info = {"inputs": {c.decl().name(): to_s(model.get(c.decl().name(), 0), c.size()) for c in ob.inputs},
+        ms = [(c, mk_val(c, model.get(c.decl().name(), 0))) for c in ob.inputs]
+        info = {"inputs": {c.decl().name(): show_val(c, model.get(c.decl().name(), 0)) for c in ob.inputs},
                 "calls": [], "natives": {}}
         # what the encoding predicts (placeholders of earlier calls substituted by their encoded terms)
         esubs = list(ms)
@@ -242,12 +254,12 @@ class Run:
             enc_out = self.eval_under(c.term, esubs)
             argv = [self.eval_under(a, esubs) for a in c.args]
             info["calls"].append({"unit": c.unit.name, "cxx": c.unit.body,
-                                  "args": [str(x.as_long()) if z3.is_bv_value(x) else str(x) for x in argv],
-                                  "encoded_out": str(enc_out.as_long()) if z3.is_bv_value(enc_out) else str(enc_out)})
+                                  "args": [str(x.as_long()) if is_num(x) else str(x) for x in argv],
+                                  "encoded_out": str(enc_out.as_long()) if is_num(enc_out) else str(enc_out)})
             r = c.res
             if not z3.is_false(r.unwind) and z3.is_true(self.eval_under(r.unwind, esubs)):
                 return "unwinding", info
-            if z3.is_bv_value(enc_out):
+            if is_num(enc_out):
                 esubs.append((c.out, enc_out))
             elif c is not ob.calls[-1] and not ob.ub:
                 # value defined through fresh symbols (by-specification ops): take it from the solver's model if present
@@ -259,20 +271,29 @@ class Run:
             outs = []
             for c in ob.calls:
                 argv = []
-                for a in c.args:
+                for a, (pn, pk) in zip(c.args, c.unit.params):
                     e = self.eval_under(a, sub)
-                    if not z3.is_bv_value(e):
+                    if not is_num(e):
                         return None, "argument of %s not determined: %s" % (c.unit.name, e)
-                    argv.append(e.as_long())
+                    argv.append(B.to_unsigned(e.as_long(), B.WIDTH[pk]))
                 nat = c.h.native(cfg[0], cfg[1], cfg[2] if len(cfg) > 2 else (), std=c.std)
                 out = nat.run([(c.unit.name, argv)])[0]
                 outs.append(out)
                 if isinstance(out, B.Died):
                     return outs, "died"
-                sub.append((c.out, z3.BitVecVal(out, c.out.size())))
+                if c.int_mode:
+                    w = B.WIDTH[c.unit.ret]
+                    sub.append((c.out, z3.IntVal(B.to_signed(out, w) if w > 1 else out)))
+                else:
+                    sub.append((c.out, z3.BitVecVal(out, c.out.size())))
             return outs, sub
 
-        if ob.ub:
+        ub_mode = ob.ub
+        if ob.also_ub and not ob.ub:
+            for c in ob.calls:
+                if any(z3.is_true(self.eval_under(cnd, esubs)) for _, _, cnd in c.res.ub):
+                    ub_mode = True
+        if ub_mode:
             sites = []
             for c in ob.calls:
                 for kind, text, cnd in c.res.ub:
@@ -496,14 +517,18 @@ class Run:
         mod = h.lower(ir, std)
         for uname, vecs in vectors.items():
             u = h.units[uname]
-            ins, _ = B.sym_args(u, "sc_")
+            imode = bool(opts is not None and opts.int_mode)
+            if imode:
+                ins = [z3.Int("sc_" + n) for n, _ in u.params]
+            else:
+                ins, _ = B.sym_args(u, "sc_")
             c = Call(h, uname, ins, opts, ir, std)
             r = c.encode()
             for cfg in natives:
                 nat = h.native(cfg[0], cfg[1], std=std)
                 outs = nat.run([(uname, [B.to_unsigned(x, B.WIDTH[k]) for x, (_, k) in zip(v, u.params)]) for v in vecs])
                 for v, out in zip(vecs, outs):
-                    ms = [(cst, z3.BitVecVal(x, cst.size())) for cst, x in zip(ins, v)]
+                    ms = [(cst, mk_val(cst, x)) for cst, x in zip(ins, v)]
                     ubhit = any(z3.is_true(self.eval_under(cnd, ms)) for _, _, cnd in r.ub)
                     if not z3.is_false(r.unwind) and z3.is_true(self.eval_under(r.unwind, ms)):
                         continue
@@ -511,13 +536,32 @@ class Run:
                     if ubhit:
                         continue
                     e = self.eval_under(c.term, ms)
-                    if isinstance(out, B.Died) or not z3.is_bv_value(e) or e.as_long() != out:
-                        if r.fresh and not z3.is_bv_value(e):
+                    exp = None
+                    if is_num(e):
+                        exp = B.to_unsigned(e.as_long(), B.WIDTH[u.ret])
+                    if isinstance(out, B.Died) or exp is None or exp != out:
+                        if r.fresh and exp is None:
                             continue  # value defined through fresh symbols (by-specification ops): not evaluable
                         mism += 1
                         self.selfcheck["mismatches"] += 1
                         print("ENCODER-MISMATCH unit=%s args=%s native(%s)=%r encoding=%s" % (uname, v, cfg, out, e))
         return mism
+
+
+def is_num(e):
+    return z3.is_bv_value(e) or z3.is_int_value(e)
+
+
+def mk_val(c, v):
+    if z3.is_int(c):
+        return z3.IntVal(v)
+    return z3.BitVecVal(v, c.size())
+
+
+def show_val(c, v):
+    if z3.is_int(c):
+        return str(v)
+    return to_s(v, c.size())
 
 
 def to_s(v, w):
